@@ -19,7 +19,7 @@ def check(run, only=None):
             h.spec = cells.Spec("", quick=h.quick)
             h.variant, h.tags = h.meta["node"], ("arm",)
             out.append(h)
-        return out
+        return out + cells.partialeq_cells("c02")
     arms, hs = cells.run_cells(run, "c02", only=only, extra=arm_results, extra_preamble=c05.PREAMBLE + apre)
     run.assumptions += cells.COMMON_ASSUMPTIONS + [
         "Decimal arithmetic / comparison / rounding cells: rust_decimal's operation is replaced by a recorder (which operation, which operands, "
